@@ -25,7 +25,7 @@ SOURCES = ['url', 'app-resource', 'route-resource', 'builtin', 'mw-request', 'mw
 PAIRS = [(a, b) for i, a in enumerate(SOURCES) for b in SOURCES[i:]
          if not (a == b and a in ('url', 'builtin', 'app-resource', 'route-resource'))
          and (a, b) != ('app-resource', 'route-resource')]
-REQUIRED_REACH = ['planted:reserved-app-resource', 'planted:reserved-route-resource', 'planted:reserved-url-binding',
+REQUIRED_REACH = ['schedules:two-constructions', 'planted:reserved-app-resource', 'planted:reserved-route-resource', 'planted:reserved-url-binding',
                   'planted:mw-without-next', 'planted:next-in-endpoint', 'planted:next-in-render',
                   'planted:context-outside-render', 'control:accepted', 'planted-in-prefix-binding', 'planted-in-factory-made-render', 'planted-mw-without-any-parameter'] + \
                  ['planted:conflict:%s+%s' % p for p in PAIRS]
@@ -222,10 +222,81 @@ PLANTINGS = ['conflict:%s+%s' % p for p in PAIRS] + \
 
 def plan(tier, seed):
     return [{'label': 'plant-%d' % i, 'index': i, 'hosts': 10 if tier == 'quick' else 300,
-             'timeout': 1200 if tier == 'quick' else 7200} for i in range(NSHARDS)]
+             'timeout': 1200 if tier == 'quick' else 7200} for i in range(NSHARDS)] + \
+           [{'label': 'concurrent-construction', 'kind': 'concurrent', 'timeout': 3600}]
+
+
+def concurrent_construction(sh, spec):
+    """Applications are also constructed side by side (two threads building their applications at start-up, a reloader):
+    every single-preemption schedule of a construction that must be refused and one that must succeed - both orders - ends with
+    the verdict each of them gets when it is constructed alone."""
+    import os
+    from clastic import Application, Route, Response, Middleware
+    from .. import sched
+    from ..common import REPO
+    roots = (os.path.join(REPO, 'clastic') + os.sep, '<sinter generated')
+
+    def provider(name, phase='request'):
+        attr = {'request': 'provides', 'endpoint': 'endpoint_provides', 'render': 'render_provides'}[phase]
+        ns = {}
+        exec('def hook(next):\n    return next(%s=1)\n' % name, ns)
+        return type('Provides_%s_%s' % (name, phase), (Middleware,), {attr: (name,), phase: staticmethod(ns['hook'])})()
+
+    def fn(*names):
+        ns = {'Response': Response}
+        exec('def ep(%s):\n    return Response("ok")\n' % ', '.join(names), ns)
+        return ns['ep']
+    builders = {
+        'url+resource': lambda: Application([Route('/item/<x>', fn('x'))], resources={'x': 1}),
+        'url+provides': lambda: Application([Route('/item/<x>', fn('x'), middlewares=[provider('x')])]),
+        'resource+provides': lambda: Application([Route('/item', fn('x'))], resources={'x': 1}, middlewares=[provider('x', 'endpoint')]),
+        'provides+provides': lambda: Application([Route('/item', fn('x'), middlewares=[provider('x')])], middlewares=[provider('x', 'endpoint')]),
+        'url+builtin': lambda: Application([Route('/item/<request>', fn('request'))]),
+        'valid': lambda: Application([Route('/ok/<y>', fn('y', 'z', 'w'), middlewares=[provider('w')]), Route('/also/<x>', fn('x'))],
+                                     resources={'z': 1}),
+        'valid-2': lambda: Application([Route('/p/<x>', fn('x', 'q'))], resources={'q': 2}, middlewares=[provider('v', 'endpoint')]),
+    }
+
+    def job(name):
+        def run():
+            try:
+                builders[name]()
+            except Exception as e:
+                return type(e).__name__
+            return 'constructed'
+        return run
+    alone = {n: job(n)() for n in builders}
+    for n, v in alone.items():
+        if v != ('constructed' if n.startswith('valid') else 'NameError'):
+            sh.violation('C04/%s' % ('rejected-valid-control' if n.startswith('valid') else 'accepted:conflict'),
+                         'constructed alone, %s ends with %s' % (n, v), {'concurrent': n})
+            return
+    for bad in [n for n in builders if not n.startswith('valid')]:
+        for good in ('valid', 'valid-2'):
+            for first, second in ((bad, good), (good, bad)):
+                n_points = sched.count_points(job(first), roots)
+                step = max(1, n_points // (60 if spec.get('tier') == 'quick' else 400))
+                for k in range(1, n_points + 1, step):
+                    s = sched.Scheduler(2, sched.preempt_once(k), roots)
+                    res = s.run([job(first), job(second)])
+                    case = {'concurrent': [first, second], 'k': k}
+                    sh.case(case, nontrivial=bool(s.switches), klass='concurrent-construction')
+                    if s.broken:
+                        sh.hit('watchdog-fired')
+                        continue
+                    sh.hit('schedules:two-constructions')
+                    for (tag, val), name in zip(res, (first, second)):
+                        if tag != 'ok' or val != alone[name]:
+                            key = 'accepted:conflict' if not name.startswith('valid') else 'rejected-valid-control'
+                            sh.violation('C04/' + key, 'constructed while another application was being constructed (%s preempted after %d steps, '
+                                         '%s built meanwhile), %s ends with %s - alone it ends with %s'
+                                         % (first, k, second, name, val if tag == 'ok' else tag, alone[name]), case)
+                            return
 
 
 def run_shard(sh, spec):
+    if spec.get('kind') == 'concurrent':
+        return concurrent_construction(sh, spec)
     rng = Rng(spec['seed'], PROPERTY, spec['label'])
     from .. import gen_di as g
     sh_exotic[0] = sh_exotic[1] = 0
@@ -297,6 +368,8 @@ def _run_shard(sh, spec, rng, g):
 
 
 def replay(sh, case, spec):
+    if 'concurrent' in case:
+        return concurrent_construction(sh, dict(spec, tier='thorough'))
     if case.get('scenario') == 'bound-then-unbound':
         return bound_then_unbound(sh, Rng(0, 'replay'))
     replay_cfg(sh, PROPERTY, case)
